@@ -2141,6 +2141,8 @@ impl Transaction {
                 updated,
                 removed,
             } => {
+                // A MemWAL state change only rewrites the MemWAL index: the table keeps its fragments.
+                final_fragments.extend(maybe_existing_fragments?.clone());
                 update_mem_wal_index_in_indices_list(
                     self.read_version,
                     current_manifest.map_or(1, |m| m.version + 1),
